@@ -7,7 +7,7 @@ READY = True
 THEOREMS = ["C02.sets_closed", "C02.sets_exact", "C02.fuel_enough", "C02.det_complete", "C02.fact_lang_eq", "C02.exact", "C02.reject_raises", "C02.exact_templates", "C02.smart_indep",
             "C02.conflict_report_exact", "C02.ll1_as_written_unambiguous", "C02.ll1_as_written_nonvacuous",
             "C02.table_deterministic", "C02.unique_derivation", "C02.parse_unique"]
-RULE = ("one case = one generated grammar (generators and dimensions as C01 - templates, argument kinds, several parser objects, "
+RULE = ("one case = one generated grammar (generators and dimensions as C01 - observer methods between parses, keyword arguments of parse, templates, argument kinds, several parser objects, "
         "str / list-of-lines input - with more LL(1)-ish grammars, groups of 3-9 alternatives behind one leading symbol (suffix symbols with more "
         "than 5 productions survive the smart undo), a well-formed non-left-recursive grammar must be accepted with both "
         "settings, incl. unit productions over a nullable symbol declared before productions "
@@ -66,14 +66,17 @@ def oracle(case, replies):
                 first_ok = ctx
         elif op == "amb" and ctx["check"] and ctx["ll1"] and rep != "amb=0":
             return "ll1-reported-ambiguous-after-parsing: an LL(1) grammar is reported ambiguous once texts have been parsed (%s, smart=%s)" % (rep, smart)
-        elif op in ("p", "pl") and ctx["check"] and ctx["unamb"]:
+        elif (op in ("p", "pl") or (op == "px" and ll.p_info(line)[0] is None)) and ctx["check"] and ctx["unamb"]:
             text = ll.dec_p(line)
-            toks = ll.expected_tokens(case, text, op == "pl")
+            toks = ll.expected_tokens(case, text, ll.p_info(line)[1])
             if text in case.get("member", {}):
                 member = case["member"][text]          # long inputs: membership is known by construction
             else:
                 member = ll.derives(g, start, [n for n, _ in toks])
-            if rep.startswith("tree "):
+            if rep == "accepted":                 # do_cleanup=True: only that a result is returned
+                if not member:
+                    return "accepts-non-sentence: %s is not in the language (do_cleanup=True, smart=%s)" % (ll._short(text), smart)
+            elif rep.startswith("tree "):
                 if not member:
                     return "accepts-non-sentence: %s is not in the language (smart=%s)" % (ll._short(text), smart)
                 if ctx["ll1"]:
